@@ -89,7 +89,7 @@ LogLenAfter(r, P) ==
       [] OTHER -> P.dlog.len
 FState(r, P) ==
     F("BookkeepingAsDeclared",
-        /\ r.counter = P.counter + Evals(r.base)
+        /\ IF r.base \in OptB THEN r.counter >= P.counter + 1 ELSE r.counter = P.counter + Evals(r.base)
         /\ r.ntheta = Cardinality(ThetaAfter(r.base, P.theta))
         /\ r.dlen = LogLenAfter(r, P))
 
